@@ -8,7 +8,7 @@ LEVEL = ("Static structural conditions: in every Chain::draw the tuning flag rep
          "argument (R2); every transformation mutator in adapt executes only under `draw < final-window` where the final-window field is a "
          "function of num_tune and step_size_window only (R3); after warmup adapt only copies statistics and calls update_stepsize(.., true) "
          "unconditionally; in the final window only the late estimator and update_stepsize(is_last = draw == num_tune-1); step size is written "
-         "only by Strategy::init / update_stepsize (R4). Value questions (num_tune = 0 assert, jitter band) are not decided.")
+         "only by Strategy::init / update_stepsize (R4). Value questions (jitter band) are not decided; the num_tune = 0 clause is decided for the constructors by R5 (panic guards evaluated with num_tune := 0).")
 EXPLANATION = "Dominance, control-dependence and edge-relation analysis on the MIR of Chain::draw and AdaptStrategy::adapt impls; who-may-call on the call graph."
 TRUSTED = ["rustc nightly MIR", "nutsfacts extractor", "rules/c06.py, rules/rel.py"]
 TECHNIQUE = "static analysis: dominance / control-dependence edge relations on MIR + who-may-call"
@@ -307,9 +307,107 @@ def r4(F, R):
     R.floor("C06-R4", 6)
 
 
+def _eval_at_zero(v, zero_args):
+    """Value of an integer/float expression tree when the named parameters are 0; None = unknown. `x * 0.0 as u64` is 0 for every x
+    (NaN and infinities cast to 0 / saturate, and are not sensible option values anyway)."""
+    k = v[0]
+    if k == "arg":
+        return 0 if v[1] in zero_args else None
+    if k == "const":
+        try:
+            return float(v[2]) if v[2] is not None and ("." in str(v[2]) or "e" in str(v[2]).lower()) else int(v[2])
+        except (TypeError, ValueError):
+            return {"true": 1, "false": 0}.get(str(v[2]))
+    if k in ("cast", "deref", "ref"):
+        x = _eval_at_zero(v[1], zero_args)
+        return int(x) if isinstance(x, float) and x == x and abs(x) < 1e18 else x
+    if k == "field" and v[1][0] == "bin" and v[1][1].endswith("WithOverflow") and str(v[2]) == "0":
+        return _eval_at_zero(("bin", v[1][1][:-len("WithOverflow")], v[1][2], v[1][3]), zero_args)
+    if k == "bin":
+        a, b = _eval_at_zero(v[2], zero_args), _eval_at_zero(v[3], zero_args)
+        op = v[1]
+        if op == "Mul" and (a == 0 or b == 0):
+            return 0
+        if a is None or b is None:
+            return None
+        try:
+            return {"Add": a + b, "Sub": a - b, "Mul": a * b, "Lt": int(a < b), "Le": int(a <= b), "Gt": int(a > b), "Ge": int(a >= b),
+                    "Eq": int(a == b), "Ne": int(a != b)}.get(op)
+        except TypeError:
+            return None
+    if k == "call":
+        nm = v[3].get("name") if isinstance(v[3], dict) else ""
+        args = [_eval_at_zero(a, zero_args) for a in v[2]]
+        if nm == "saturating_sub" and len(args) == 2:
+            if args[0] == 0:
+                return 0
+            if None not in args:
+                return max(args[0] - args[1], 0)
+        if nm in ("min",) and len(args) == 2 and None not in args:
+            return min(args)
+        if nm in ("max",) and len(args) == 2 and None not in args:
+            return max(args)
+    return None
+
+
+def r5(F, R):
+    """A chain without warmup can be constructed."""
+    R.rule("C06-R5", "`num_tune = 0` yields a working chain: in every AdaptStrategy::new, every panic (assert!) is unreachable when the num_tune parameter is 0 - "
+                     "decided by evaluating the conditions guarding the panic with num_tune := 0 (window sizes computed as `fraction * num_tune as u64` become 0)")
+    impls = F.trait_method_impls("AdaptStrategy", "new")
+    if len(impls) < 2:
+        R.missing("C06-R5", "impl AdaptStrategy::new (found %d)" % len(impls))
+    for b in impls:
+        zero = {i for i in range(1, b.arg_count + 1) if b.local_name(i) == "num_tune"}
+        site = "%s @%s" % (b.path, b.loc())
+        if not zero:
+            R.bad("C06-R5", b.path + ":param", site, "constructor has no num_tune parameter")
+            continue
+        n = 0
+        for bb, t in b.calls():
+            pth = strip_generics(t["callee"].get("path", ""))
+            if not (pth.startswith(("core::panicking::", "std::rt::begin_panic", "std::panicking::")) or pth.endswith(("panic_fmt", "::panic", "assert_failed"))):
+                continue
+            if b.blocks[bb]["cleanup"]:
+                continue
+            n += 1
+            rels = [(o, l, r) for (o, l, r, _s) in Rl.edge_relations(b, bb) if r is not None]
+            # a diverging block post-dominates nothing: take the condition of the edge that enters it, and what holds at the branching block
+            preds = list(b.pred_map()[bb])
+            if len(preds) == 1 and b.blocks[preds[0]]["term"]["k"] == "switch":
+                pt = b.blocks[preds[0]]["term"]
+                val = None
+                for arm in pt["arms"]:
+                    if arm["target"] == bb:
+                        val = (arm["val"] != 0)
+                if val is None and pt["otherwise"] == bb:
+                    vs_ = {arm["val"] for arm in pt["arms"]}
+                    val = True if vs_ == {0} else (False if vs_ == {1} else None)
+                if val is not None and pt.get("discr_ty") == "bool":
+                    tmp = []
+                    Rl._decompose(b.value(pt["discr"]), val, preds[0], tmp, b, 0, set())
+                    rels += [(o, l, r) for (o, l, r, _s) in tmp if r is not None]
+                    rels += [(o, l, r) for (o, l, r, _s) in Rl.edge_relations(b, preds[0]) if r is not None]
+            vals = []
+            for (o, l, r) in rels:
+                vals.append(_eval_at_zero(("bin", o, l, r), zero))
+            key = "%s:panic#%d" % (b.path, n)
+            psite = "%s @%s" % (b.path, loc(t["span"]))
+            if any(x == 0 for x in vals):
+                R.ok("C06-R5", key, psite, "not reachable with num_tune = 0 (%s)" % "; ".join("%s(%s, %s)" % (o, vt_str(l)[:30], vt_str(r)[:30]) for (o, l, r) in rels)[:200])
+            elif vals and all(x == 1 for x in vals):
+                R.bad("C06-R5", key, psite, "with num_tune = 0 the constructor panics: %s holds (a chain without warmup cannot be built)" % "; ".join(
+                    "%s(%s, %s)" % (o, vt_str(l)[:40], vt_str(r)[:40]) for (o, l, r) in rels)[:300])
+            else:
+                R.ok("C06-R5", key, psite, "does not depend on num_tune alone (%s)" % "; ".join("%s(%s, %s)" % (o, vt_str(l)[:30], vt_str(r)[:30]) for (o, l, r) in rels)[:200])
+        R.ok("C06-R5", b.path + ":scan", site, "%d panic sites examined" % n)
+    R.floor("C06-R5", 3)
+
+
+
 def run(F, R, config="all"):
     r1(F, R)
     r2(F, R)
     r3(F, R)
     r4(F, R)
-    R.info("C06", "not decided: assert!(early_end < num_tune) panics for num_tune = 0 with the mass-matrix presets (value question, see DESIGN section 5)")
+    r5(F, R)
